@@ -10,12 +10,12 @@ CLAIMS = {
     'C01': dict(
         engine='X',
         technique='CrossHair+z3 enumeration of edit histories through real in-process bob dev / bob build invocations (real parser, ids, directory oracle, state, cook logic, directory hashing) with a deterministic script model, compared with a clean build by the same real code',
-        text='For every history of <= 2 (quick) / 3 (thorough) edits out of 11 kinds (script texts of recipe and class, strong and weak variable values, consumed-variable list, checkout script, dependency add/remove, '
-             're-parameterised second variant) on the project app -> {lib, mid -> lib}, in develop and release mode: after each incremental build every package result (full directory content) equals the result of a '
+        text='For every history of <= 2 (quick) / 3 (thorough) edits out of 12 kinds (script texts of recipe and class, strong and weak variable values, consumed-variable list, checkout script, dependency add/remove, '
+             're-parameterised second variant, a user edit in a source workspace) on the project app -> {lib, mid -> lib}, in develop and release mode: after each incremental build every package result (full directory content) equals the result of a '
              'from-scratch build of the same project state, no build/package workspace was reused for a different script without being emptied, every visited workspace has a truthful audit trail, and an immediately '
              'repeated build executes no step at all.',
         design_ref='DESIGN.md section 4, C01',
-        note='Trusted: the script model (output = hash of script, strong environment, argument results). Outside: real script execution, import/git/url sources and source file edits, -j (see C06), downloads, '
+        note='Trusted: the script model (output = hash of script, strong environment, argument results). Outside: real script execution, import/git/url sources, -j (see C06), downloads, '
              'projects beyond the one modelled.'),
     'C05': dict(
         engine='X',
